@@ -499,7 +499,10 @@ func (r *concRun) exec() {
 		id := 10000 + ridx
 		var f wire.Frame
 		masked := p.Role == "server"
-		if op.Type == 8 {
+		if op.Type == 8 && p.Seed%3 == 1 {
+			// a framing violation: the read goroutine answers with a close 1002 (automatic close, C09)
+			f = wire.Frame{Op: 2, Fin: true, R2: true, Masked: masked, Payload: []byte{1}}
+		} else if op.Type == 8 {
 			f = wire.Frame{Op: 8, Fin: true, Masked: masked, Payload: wire.CloseBody(1000, nil)}
 		} else {
 			pl := wire.TextPay(p.Seed, id, op.N)
